@@ -256,6 +256,9 @@ nni_msgq_aio_get(nni_msgq *mq, nni_aio *aio)
 
 	nni_aio_list_append(&mq->mq_aio_getq, aio);
 	nni_msgq_run_getq(mq);
+	// A reader that took a buffered message made room: let blocked
+	// writers move in, otherwise they wait although the queue is not full.
+	nni_msgq_run_putq(mq);
 	nni_msgq_run_notify(mq);
 
 	nni_mtx_unlock(&mq->mq_lock);
